@@ -13,6 +13,7 @@ import (
 	"sort"
 	"strings"
 
+	"gocv/internal/smt"
 	"gocv/internal/vc"
 )
 
@@ -189,6 +190,7 @@ type Selection struct {
 // verify generates and discharges the selected obligations and records the outcome.
 func (r *Run) verify(e *vc.Engine, pkgPaths []string, sel Selection, withLemmas bool) error {
 	var all []*vc.Obligation
+	var contractErrs []*vc.Obligation
 	nfun := 0
 	for _, pp := range pkgPaths {
 		for _, fn := range e.Functions(pp) {
@@ -201,7 +203,15 @@ func (r *Run) verify(e *vc.Engine, pkgPaths []string, sel Selection, withLemmas 
 			}
 			obls, fs, err := e.VerifyFunc(fn)
 			if err != nil {
-				return fmt.Errorf("engine: %v", err)
+				// the contract no longer fits the function (a clause names a variable or statement that is gone,
+				// or the code left the supported subset): every obligation of the function is undecided, which is
+				// reported as one violation naming the function and the reason
+				o := &vc.Obligation{ID: key + "/CONTRACT/cannot be applied", Func: key, Class: "CONTRACT", Site: "contract of " + key,
+					Result: smt.Result{Status: "error", Output: "the contract cannot be applied to the current code: " + err.Error()}}
+				r.Functions = append(r.Functions, key)
+				nfun++
+				contractErrs = append(contractErrs, o)
+				continue
 			}
 			nfun++
 			r.Functions = append(r.Functions, key)
@@ -230,7 +240,7 @@ func (r *Run) verify(e *vc.Engine, pkgPaths []string, sel Selection, withLemmas 
 		r.Assumptions["assumed contract: "+fc] = true
 	}
 	e.Discharge(all, runtime.NumCPU()*3/4)
-	r.record(e, all)
+	r.record(e, append(all, contractErrs...))
 	return nil
 }
 
@@ -309,7 +319,7 @@ func (r *Run) violation(e *vc.Engine, o *vc.Obligation, note string) {
 	qp := filepath.Join(dir, base+".smt2")
 	_ = os.WriteFile(qp, []byte(o.Query), 0o644)
 	rf := ReplayFile{Property: r.ID, Obligation: o.ID, Class: o.Class, Function: o.Func, Site: o.Site,
-		Position: o.Pos.String(), Solver: trunc(o.Result.Output, 4000), QueryPath: qp, Note: note,
+		Position: o.Pos.String(), Solver: trunc(strings.TrimSpace(o.Note+"\n"+o.Result.Output), 4000), QueryPath: qp, Note: note,
 		Rerun: fmt.Sprintf("/verif/bin/check %s --tier %s", r.ID, r.Tier)}
 	switch {
 	case note != "":
